@@ -24,11 +24,12 @@ def subtreeMatches (t : Ref → Bool) (root : Ref) : List Ref :=
 /-- drop the `depth()` of an inner `descendantQuery` item (`followingQuery` has no `depth()`) -/
 def noLvl (x : Item) : Item := ⟨x.r, x.pos, 0⟩
 
-/-- what the non-sibling `followingQuery` closure in state `(node, q)` still yields -/
-def folCur (a : AxisInfo) (c : Ref) (node : Ref) (q : Option PQ) : List Item :=
+/-- what the non-sibling `followingQuery` closure in state `(node, q)` still yields; the captured
+`q` walks the subtree of `node` (its `startQuery` holds a copy of `node`): `rem … node q` -/
+def folCur (a : AxisInfo) (node : Ref) (q : Option PQ) : List Item :=
   (match q with
     | none => []
-    | some q => (rem d cfg c q).map noLvl)
+    | some q => (rem d cfg node q).map noLvl)
   ++ (followRoots d (2 * d.length + 2) node).flatMap (fun root => numbered (subtreeMatches d (test d cfg a) root))
 
 /-- items of the roots `rs` of a `precedingQuery` with running `posit` -/
@@ -39,12 +40,12 @@ def precTail (t : Ref → Bool) : List (Ref × Bool) → Nat → List Item
       ++ precTail t rs ((if reset then 0 else cnt) + (subtreeMatches d t root).length)
 
 /-- what the non-sibling `precedingQuery` closure in state `(node, q)` with `posit = pos` still yields -/
-def precCur (a : AxisInfo) (c : Ref) (node : Ref) (q : Option PQ) (pos : Nat) : List Item :=
+def precCur (a : AxisInfo) (node : Ref) (q : Option PQ) (pos : Nat) : List Item :=
   (match q with
     | none => []
-    | some q => numFrom pos ((rem d cfg c q).map (·.r)))
+    | some q => numFrom pos ((rem d cfg node q).map (·.r)))
   ++ precTail d (test d cfg a) (precRoots d (2 * d.length + 2) node false)
-      (pos + (match q with | none => 0 | some q => (rem d cfg c q).length))
+      (pos + (match q with | none => 0 | some q => (rem d cfg node q).length))
 
 /-- `topMost`-expansion of one node: itself if it matches, else its top-most matching descendants -/
 def topOf (t : Ref → Bool) (s : Ref) : List Ref := if t s then [s] else topMost d t s
@@ -138,13 +139,13 @@ def rem2 : Ref → PQ2 → List Item
     (match it with
       | none => []
       | some (node, q) =>
-        if sib then numFrom pos ((sibCands d node false).filter (test d cfg a)) else folCur d cfg a c node q)
+        if sib then numFrom pos ((sibCands d node false).filter (test d cfg a)) else folCur d cfg a node q)
     ++ (rem2 c inp).flatMap (fun x => folContrib d cfg a sib x.r)
   | c, .preceding a sib inp it pos =>
     (match it with
       | none => []
       | some (node, q) =>
-        if sib then numFrom pos ((prevSibsM d node).filter (test d cfg a)) else precCur d cfg a c node q pos)
+        if sib then numFrom pos ((prevSibsM d node).filter (test d cfg a)) else precCur d cfg a node q pos)
     ++ (rem2 c inp).flatMap (fun x => precContrib d cfg a sib x.r)
   | c, .filter inp pred pos pm => fmapR (filterG dec pred) (·.1) (fun _ => 0) (pos, pm) (rem2 c inp)
   | c, .union l r it =>
@@ -164,12 +165,12 @@ def rem2 : Ref → PQ2 → List Item
 /-- a reference into the document -/
 def Good (r : Ref) : Prop := r.idx < d.length
 
-/-- the inner `*descendantQuery` of a following/preceding closure has read its context node -/
+/-- the inner `*descendantQuery` of a following/preceding closure has pulled its `startQuery` -/
 def innerOK : Option PQ → Prop
   | none => True
   | some q => ∃ a s c it p l, q = .descendant a s (.context c) it p l ∧ c > 0 ∧ ∀ n f, it = some (n, f) → Good d n
 
-/-- … or is the freshly created one (it reads `t.Current()` on its first pull, inside the same `Select`) -/
+/-- … or is the freshly created one (its first pull takes the start node from its `startQuery`) -/
 def innerInv (q : Option PQ) : Prop := innerOK d q ∨ ∃ a s, q = some (innerDesc a s)
 
 def itOK (it : Option (Ref × Bool)) : Prop := ∀ n f, it = some (n, f) → Good d n
